@@ -1,7 +1,141 @@
-(* C17 - statements only (stub, to be completed). *)
+(* C17 - temporary overrides and derived computations leave the model unchanged.
+   Statements only; each closed by [exact] of a lemma from State/Overrides_proofs.v.
+
+   Reading guide.  [run e ev p w s] executes the program p (user evaluation points, sequences,
+   with-blocks of the six managers, the read-only helpers, factor_iteration loops - nested
+   arbitrarily) from model state s.  [ev : nat -> state -> bool] is an ARBITRARY oracle saying
+   whether the k-th evaluation point (user code inside a block, or an amplitude evaluation inside a
+   helper), reached in state s, raises: quantifying over ev covers "an exception injected at any
+   point".  [st_of (snd ...)] is the model state left behind, whether the run ended normally or by
+   an exception.  [restored e s s'] = parameters, mask, chain selection, mask_factor flags and
+   configuration of s' equal those of s; not_full is the old flag or the value recomputed for the
+   same selection (they coincide when [nf_consistent e s]). *)
 From Coq Require Import ZArith List Bool.
-From TFV Require Import State.Overrides.
+From TFV Require Import State.Overrides State.Overrides_proofs.
 Import ListNotations.
 Open Scope Z_scope.
-Example C17_stub : zipset [true] [false] = [true].
-Proof. reflexivity. Qed.
+
+(* override_restores: a save/set/try-yield-finally-restore manager whose exit undoes its enter,
+   around ANY body that hands the state back as it found it - returning or raising -, hands the
+   state back as it found it; and it does not swallow the exception. *)
+Theorem C17_override_restores :
+  forall (A : Type) (enter : state -> option (state * A)) (exit : A -> state -> state) (body : comp),
+    (forall s s1 sv, enter s = Some (s1, sv) -> exit sv s1 = s) ->
+    (forall w s, st_of (snd (body w s)) = s) ->
+    forall w s, st_of (snd (with_block enter exit body w s)) = s.
+Proof. exact with_block_neutral. Qed.
+Print Assumptions C17_override_restores.
+
+Theorem C17_block_propagates_exception :
+  forall (A : Type) (enter : state -> option (state * A)) exit body w s,
+    is_exn (snd (with_block enter exit body w s)) =
+    match enter s with None => true | Some (s1, _) => is_exn (snd (body w s1)) end.
+Proof. exact with_block_exn. Qed.
+Print Assumptions C17_block_propagates_exception.
+
+(* nested_blocks: every program - any nesting / sequence of the six managers, the helpers and
+   factor_iteration loops, any raising oracle, any chain selection and parameter values - restores
+   the state.  Side conditions: the dictionaries have unique keys (good), and AbsPDF.temp_params is
+   not entered while a parameter mask is active (safe; see C17_temp_params_under_mask_refuted). *)
+Theorem C17_nested_blocks_restore :
+  forall e ev p m w s,
+    safe m p = true -> good s -> (m = false -> mask_clear s) ->
+    restored e s (st_of (snd (run e ev p w s))).
+Proof. exact run_restores. Qed.
+Print Assumptions C17_nested_blocks_restore.
+
+Theorem C17_nested_blocks_restore_exact :
+  forall e ev p w s,
+    safe false p = true -> good s -> mask_clear s -> nf_consistent e s ->
+    st_of (snd (run e ev p w s)) = s.
+Proof. exact run_restores_exact. Qed.
+Print Assumptions C17_nested_blocks_restore_exact.
+
+(* readonly_helpers_restore: partial_weight (both variants), partial_weight_interference,
+   cal_fitfractions(_no_grad), FitFractions.append_int - from ANY state, exception at ANY
+   evaluation of the loop (ev arbitrary): no side condition at all. *)
+Theorem C17_readonly_helpers_restore :
+  forall e ev h w s, restored e s (st_of (snd (run_helper e ev h w s))).
+Proof. exact run_helper_restores. Qed.
+Print Assumptions C17_readonly_helpers_restore.
+
+(* "... so the density of any event is unchanged": anything computed from parameters (through the
+   mask), chain selection, mask_factor flags and configuration *)
+Theorem C17_density_unchanged :
+  forall (A : Type) (density : state -> A) e ev p w s,
+    (forall a b, eqm a b -> density a = density b) ->
+    safe false p = true -> good s -> mask_clear s ->
+    density (st_of (snd (run e ev p w s))) = density s.
+Proof. exact run_density_unchanged. Qed.
+Print Assumptions C17_density_unchanged.
+
+(* component theorems for a body that is NOT read-only (it may assign parameters, select chains,
+   replace the mask - e.g. a fit inside temp_params): the manager still restores its own component *)
+Theorem C17_temp_params_any_body :
+  forall e pdict (body : comp) w s,
+    NoDup (keys (vars s)) -> mask_clear s ->
+    (forall w' x, keys (vars (st_of (snd (body w' x)))) = keys (vars x)) ->
+    vars (st_of (snd (with_block (blk_enter e (BTempParams pdict)) (blk_exit e (BTempParams pdict)) body w s))) = vars s.
+Proof. exact temp_params_any_body. Qed.
+Print Assumptions C17_temp_params_any_body.
+
+(* also the observation on not_full: after a restricted-resonance block it is consistent with the selection *)
+Theorem C17_temp_used_res_any_body :
+  forall e res ints (body : comp) w s,
+    let r := st_of (snd (with_block (blk_enter e (BTempUsedRes res ints)) (blk_exit e (BTempUsedRes res ints)) body w s)) in
+    cidx r = cidx s /\ nf_consistent e r.
+Proof. exact temp_used_res_any_body. Qed.
+Print Assumptions C17_temp_used_res_any_body.
+
+Theorem C17_mask_params_any_body :
+  forall e pdict (body : comp) w s,
+    maskv (st_of (snd (with_block (blk_enter e (BMaskParams pdict)) (blk_exit e (BMaskParams pdict)) body w s))) = maskv s.
+Proof. exact mask_params_any_body. Qed.
+Print Assumptions C17_mask_params_any_body.
+
+(* FINDING (current /repo tree): the side condition [safe] is needed.  AbsPDF.temp_params saves
+   get_params(), which reads through the mask; inside mask_params (or a factor_iteration loop) the
+   mask values are written into the variables on exit and stay there. *)
+Theorem C17_temp_params_under_mask_refuted :
+  exists e ev p s, good s /\ mask_clear s /\ nf_consistent e s /\
+    vars (st_of (snd (run e ev p (O, []) s))) <> vars s.
+Proof. exact temp_params_under_mask_refuted. Qed.
+Print Assumptions C17_temp_params_under_mask_refuted.
+
+(* full-strength statement that the finding refutes (kept visible) *)
+Definition C17_full_statement : Prop :=
+  forall e ev p w s, good s -> mask_clear s -> restored e s (st_of (snd (run e ev p w s))).
+
+(* ---- why the repairs matter: the pre-fix control flow (separate "old" model) ---- *)
+Theorem C17_old_control_flow_leaks :
+  forall e b s s1 sv, blk_enter e b s = Some (s1, sv) -> s1 <> s ->
+    st_of (snd (old_block e b raise_now (O, []) s)) <> s.
+Proof. exact old_block_leaks. Qed.
+Print Assumptions C17_old_control_flow_leaks.
+
+Theorem C17_old_vm_temp_params_corrupts :
+  forall (y2x : val -> val) v, y2x v <> v ->
+    exists s pdict, vars (st_of (snd (old_vm_temp_params y2x pdict return_now (O, []) s))) <> vars s.
+Proof. exact old_vm_temp_params_corrupts. Qed.
+Print Assumptions C17_old_vm_temp_params_corrupts.
+
+Theorem C17_old_fitfractions_widens :
+  cidx (st_of (snd (old_fitfractions ex_env never [0; 1; 2] [0; 1] 1 (O, []) (set_used_chains ex_env [0; 1] ex_state)))) = [0; 1; 2].
+Proof. exact old_fitfractions_widens. Qed.
+Print Assumptions C17_old_fitfractions_widens.
+
+(* non-vacuity: the hypotheses are satisfiable and the program below really overrides something *)
+Example C17_example_hyps : good ex_state /\ mask_clear ex_state /\ nf_consistent ex_env ex_state.
+Proof.
+  split; [|split].
+  - unfold good. cbn. split; repeat constructor; cbn; intuition discriminate.
+  - intros k _. reflexivity.
+  - reflexivity.
+Qed.
+Example C17_example_run :
+  let p := PWith (BTempUsedRes [1] []) (PWith (BTempParams [(1, (5, 8))]) (PSeq PEval (PHelper HInterference))) in
+  safe false p = true /\
+  (* exception at the 3rd evaluation: seen states had chains [1], [0;1], [0;2]; state restored *)
+  map cidx (rev (snd (fst (run ex_env (fun n _ => Nat.eqb n 2) p (O, []) ex_state)))) = [[1]; [0; 1]; [0; 2]] /\
+  run ex_env (fun n _ => Nat.eqb n 2) p (O, []) ex_state = ((3%nat, snd (fst (run ex_env (fun n _ => Nat.eqb n 2) p (O, []) ex_state))), Exn ex_state).
+Proof. vm_compute. repeat split. Qed.
